@@ -5,7 +5,7 @@ From Coq Require Import ZArith List String Ascii Bool Permutation.
 From Gen Require Import Elements TokenTables SmartsTables.
 From Model Require Import PyBase Graph PeriodicTable Tokenize Smarts Query SmartsFull.
 From Model Require Parser.
-From Proofs Require Import QueryProofs TokenizeProofs SmartsProofs SmartsRoundtrip SmartsParser SmartsFullProofs SmartsDenote SmartsDenoteText SmartsTree SmartsTreeText SmartsStereo SmartsRing SmartsRingText SmartsMolMatch SmartsPins SmartsNumbers.
+From Proofs Require Import QueryProofs TokenizeProofs SmartsProofs SmartsRoundtrip SmartsParser SmartsFullProofs SmartsDenote SmartsDenoteText SmartsTree SmartsTreeText SmartsStereo SmartsRing SmartsRingText SmartsMolMatch SmartsPins SmartsNumbers SmartsDots SmartsDotsText.
 Import ListNotations.
 Open Scope Z_scope.
 
@@ -631,3 +631,40 @@ Theorem C08_numbers_example :
   smarts_numbers "[C:7]C[N;M:2][O;M]C[S;M]" = Ok [NGiven 7; NGiven 8; NGiven 2; NMasked 0; NGiven 9; NMasked 1].
 Proof. exact numbers_example. Qed.
 Print Assumptions C08_numbers_example.
+
+(* ---------------------------------------------------------------------------------------------------------------- *)
+(* denotation of MULTI-COMPONENT patterns  tree ( "." tree )*: the atoms of all components in the order written, every atom
+   bonded to its parent in its own tree, nothing between components.  Token level and text level (trees as in
+   C08_tree_text_denotation), for any number of components of any size *)
+Theorem C08_pattern_denotation : forall t ts qs,
+  ok_tree t -> Forall ok_tree ts ->
+  Forall2 (fun p q => build_atom p = Ok q) (atoms_pattern t ts) qs ->
+  NoDup (explicit_maps (atoms_pattern t ts)) ->
+  Forall payload_valid (bonds_pattern t ts) ->
+  full_of_tokens (tok_pattern t ts) (atoms_pattern t ts) =
+  Ok (map (fun pq => atom_result (fst pq) (snd pq)) (combine (atoms_pattern t ts) qs), map to_sbond (bonds_pattern t ts)).
+Proof. exact pattern_denotation. Qed.
+Print Assumptions C08_pattern_denotation.
+
+Theorem C08_pattern_text_denotation : forall t ts qs,
+  tok_ok_tree t -> Forall tok_ok_tree ts ->
+  Forall2 (fun p q => build_atom p = Ok q) (atoms_pattern (to_tree t) (map to_tree ts)) qs ->
+  NoDup (explicit_maps (atoms_pattern (to_tree t) (map to_tree ts))) ->
+  Forall payload_valid (bonds_pattern (to_tree t) (map to_tree ts)) ->
+  smarts_full (string_of_list_ascii (text_pattern t ts)) =
+  Ok (map (fun pq => atom_result (fst pq) (snd pq)) (combine (atoms_pattern (to_tree t) (map to_tree ts)) qs),
+      map to_sbond (bonds_pattern (to_tree t) (map to_tree ts))).
+Proof. exact pattern_text_denotation. Qed.
+Print Assumptions C08_pattern_text_denotation.
+
+Theorem C08_pattern_text_example :
+  let t1 := TNode (TBr (s2l "C;D2")) (qp "C;D2") (TNext (BCore (CSym Bdouble) None) (TNode (TSym UO) (simple_query "O") TNil)) in
+  let t2 := TNode (TSym UN) (simple_query "N") (TBranch BNone (TNode (TSym UC) (simple_query "C") TNil) (TNext (BCore (CNot Bsingle) None) (TNode (TSym UCl) (simple_query "Cl") TNil))) in
+  tok_ok_tree t1 /\ tok_ok_tree t2 /\ string_of_list_ascii (text_pattern t1 [t2]) = "[C;D2]=O.N(C)!-Cl"%string /\
+  smarts_full "[C;D2]=O.N(C)!-Cl" =
+  Ok ([(QElem 6 None (mkQX 0 false [2] [] [] [] [] false), None); (QElem 8 None (mkQX 0 false [] [] [] [] [] false), None);
+       (QElem 7 None (mkQX 0 false [] [] [] [] [] false), None); (QElem 6 None (mkQX 0 false [] [] [] [] [] false), None);
+       (QElem 17 None (mkQX 0 false [] [] [] [] [] false), None)],
+      [mkSB 1 0 (mkQB [2] None) None; mkSB 3 2 (mkQB [1] None) None; mkSB 4 2 (mkQB [2; 3; 4] None) None]).
+Proof. exact pattern_text_example. Qed.
+Print Assumptions C08_pattern_text_example.
